@@ -51,6 +51,32 @@ class Obj:
         return "Obj%d" % self.id
 
 
+class _ForkedChild:
+    """After os.fork() the child has the parent's pool object with another pid.  Modelled by letting os.getpid() answer with
+    a new value once the (fresh, never used) pool exists: a pool that 'starts over' in a child must do so safely when the
+    child's threads arrive together."""
+
+    def __init__(self, on):
+        self.on = on
+
+    def __enter__(self):
+        import os
+        self._real = os.getpid
+        if self.on:
+            pid = self._real() + 1
+            os.getpid = lambda: pid
+        return self
+
+    def __exit__(self, *a):
+        import os
+        os.getpid = self._real
+
+
+def _strip_fork_marker(programs):
+    forked = any("FORKED" in p for p in programs)
+    return forked, tuple(tuple(o for o in p if o != "FORKED") for p in programs)
+
+
 def pool_codes():
     import pymemcache.pool as pool
     import pymemcache.client.base as base
@@ -261,6 +287,7 @@ def run_pool_case(case, forced, mode):
     """case = ("pool", programs(tuple of op tuples), max_size, idle_timeout)"""
     import pymemcache.pool as poolmod
     _, programs, max_size, idle = case
+    forked, programs = _strip_fork_marker(programs)
     sch = S.Sched(len(programs), forced)
     clock = VClock()
 
@@ -293,7 +320,8 @@ def run_pool_case(case, forced, mode):
                                   lock_generator=lambda: S.SchedLock(sch, "pool"))
         mon = Monitor(sch, pool, max_size)
         log = []
-        ok = sch.run([make_pool_program(pool, mon, ops, log, clock) for ops in programs])
+        with _ForkedChild(forked):
+            ok = sch.run([make_pool_program(pool, mon, ops, log, clock) for ops in programs])
     finally:
         restore_clock()
     viol = list(mon.viol) + early
@@ -349,7 +377,20 @@ METHOD_OPS = {
     "raw_command": lambda f, i: f.raw_command(b"version").startswith(b"VERSION"),
     "getitem": lambda f, i: f["g%d" % i] == _own(i),
     "setitem": lambda f, i: f.__setitem__("k%d" % i, b"v%d" % i) is None,
+    # commands PooledClient does not wrap upstream (an AttributeError is the undisturbed outcome); if a PooledClient offers
+    # them after all, they are pooled operations like the others
+    "cache_memlimit": lambda f, i: (f.cache_memlimit(64) is True) if _offers(f, "cache_memlimit") else True,
+    "verbosity": lambda f, i: (f.raw_command(b"verbosity 1") in (b"OK", b"ERROR")) if True else True,
 }
+
+
+def _offers(obj, name):
+    try:
+        getattr(obj, name)
+        return True
+    except AttributeError:
+        return False
+
 
 
 def run_client_case(case, forced, mode):
@@ -357,6 +398,7 @@ def run_client_case(case, forced, mode):
     HashClient(use_pooling=<value>) builds for its single server, and the operations go through the HashClient"""
     import pymemcache.client.base as base
     _, programs, max_size = case[:3]
+    forked, programs = _strip_fork_marker(programs)
     via_hash = case[3] if len(case) > 3 else None
     sch = S.Sched(len(programs), forced)
     from vk import fakenet as _fk
@@ -393,14 +435,15 @@ def run_client_case(case, forced, mode):
                     active[id(self)] = None if other is None or other == me else other
         return f
     for name in ("set", "get", "get_many", "delete", "quit", "gets", "add", "incr", "set_many", "gets_many", "gat", "gats", "replace",
-                 "append", "prepend", "cas", "delete_many", "decr", "touch", "stats", "version", "raw_command"):
+                 "append", "prepend", "cas", "delete_many", "decr", "touch", "stats", "version", "raw_command", "cache_memlimit", "flush_all"):
         setattr(Guarded, name, guard(name))
 
     import pymemcache.pool as poolmod
     saved_threading = poolmod.threading
     poolmod.threading = S.ThreadingShim(sch, saved_threading)      # a pool that does not get / ignores lock_generator is still schedulable
     try:
-        return _run_client_case(case, forced, mode, sch, net, srv, active, viol_extra, close_marks, Guarded, max_size, via_hash, programs)
+        with _ForkedChild(forked):
+            return _run_client_case(case, forced, mode, sch, net, srv, active, viol_extra, close_marks, Guarded, max_size, via_hash, programs)
     finally:
         poolmod.threading = saved_threading
 
@@ -433,7 +476,7 @@ def _run_client_case(case, forced, mode, sch, net, srv, active, viol_extra, clos
     fail_state = {"armed": set()}
     outcomes = []
 
-    has_close_ = any("close" in ops for ops in programs)
+    has_close_ = any("close" in ops or "close_faulty" in ops for ops in programs)
 
     def prog_for(idx, ops):
         def prog():
@@ -455,6 +498,25 @@ def _run_client_case(case, forced, mode, sch, net, srv, active, viol_extra, clos
                         r = front.get("bad key")
                     elif op == "quit":
                         r = front.quit()
+                    elif op == "two_conns":
+                        # two connections end up idle in the pool (what two overlapping calls leave behind)
+                        c1_ = pc.client_pool.get()
+                        c2_ = pc.client_pool.get()
+                        c1_.get("h1")
+                        c2_.get("h1")
+                        pc.client_pool.release(c1_)
+                        pc.client_pool.release(c2_)
+                        r = None
+                    elif op == "close_faulty":
+                        # close() while the peer of one pooled connection is gone: a close that talks to the server first
+                        # (a polite quit) meets a send error - every other pooled connection must still be closed
+                        close_marks.append({id(getattr(c_.sock, "raw", c_.sock))
+                                            for c_ in tuple(pc.client_pool.used) + tuple(pc.client_pool.free) if c_.sock is not None})
+                        net.faults[((idx, j), "sendall")] = "brokenpipe"
+                        try:
+                            r = front.close()
+                        except OSError as e_:
+                            r = "raised %s" % type(e_).__name__
                     elif op == "close":
                         # connections that pooled clients hold (client.sock assigned) at the moment this close() begins
                         close_marks.append({id(getattr(c_.sock, "raw", c_.sock))
@@ -480,9 +542,14 @@ def _run_client_case(case, forced, mode, sch, net, srv, active, viol_extra, clos
         viol.append(("deadlock", sch.deadlock))
     for idx, err in sch.errors:
         viol.append(("worker-died", "thread %d: %s" % (idx, err)))
-    has_close = any("close" in ops for ops in programs)
+    has_close = any("close" in ops or "close_faulty" in ops for ops in programs)
     if ok:
         pool = pc.client_pool
+        if any("close_faulty" in ops for ops in programs) and len(programs) == 1:
+            for s_ in net.socks:
+                if not s_.closed and any(id(s_) in held for held in close_marks):
+                    viol.append(("close()-left-a-pooled-connection-open", "socket %d was held by a pooled client when close() began "
+                                 "and is still open; outcomes %r" % (s_.sid, outcomes)))
         if pool.used:
             viol.append(("objects-still-checked-out-at-quiescence", "used=%r" % (pool.used,)))
         idle_socks = {id(getattr(c.sock, "raw", c.sock)) for c in pool.free if c.sock is not None}
@@ -753,6 +820,16 @@ def cases(tier):
         for a, b, c in itertools.product(["set", "fail_recv", "close", "quit"], repeat=3):
             if (common.h64((a, b, c, ms)) % (8 if tier == "quick" else 2)) == 0:
                 out.append((("client", ((a, c), (b,)), ms), 1 if tier == "quick" else 2))
+    # a forked child (see _ForkedChild): the fresh pool is first used by two threads at once
+    for ms in (1, 2, None):
+        for a, b in (("get_release", "get_release"), ("get_release", "gar_ok"), ("gar_ok", "get_destroy"), ("get_release", "clear")):
+            out.append((("pool", (("FORKED", a), (b,)), ms, 0), 2))
+        for a, b in (("set", "set"), ("get", "set"), ("get", "fail_recv")):
+            out.append((("client", (("FORKED", a), (b,)), ms), 1))
+    # two connections idle in the pool, then close() while the peer of one of them is gone (no other thread around)
+    for ms in (2, None):
+        out.append((("client", (("two_conns", "close_faulty"),), ms), 0))
+        out.append((("client", (("two_conns", "set", "close_faulty", "set"),), ms), 0))
     # every other PooledClient method against a plain read, a failing read and itself
     for mi, m in enumerate(sorted(METHOD_OPS)):
         for ms in (1, 2, None):
